@@ -47,7 +47,7 @@ def sh(cmd, **kw):
 
 def main():
     ids = [a for a in sys.argv[1:] if not a.startswith("--")]
-    from_tmp = "--from-tmp" in sys.argv
+    from_tmp = "--from-tmp" in sys.argv and "--from-tmp2" not in sys.argv
     head = sh("git -C /repo rev-parse --short HEAD").stdout.strip()
     todo = []
     if from_tmp:
@@ -59,6 +59,15 @@ def main():
                 patch = f"{d}/{x}.rebased.diff" if os.path.exists(f"{d}/{x}.rebased.diff") else f"{d}/{x}.diff"
                 if os.path.exists(patch):
                     todo.append((pid + x, pid, patch, f"{d}/demo_{x}.py", f"{d}/NOTES.md"))
+    elif "--from-tmp2" in sys.argv:      # second round: /tmp/mutants2/<pid>/{a,b}.diff are stored as <pid>c / <pid>d
+        for pid in sorted(os.listdir("/tmp/mutants2")):
+            d = f"/tmp/mutants2/{pid}"
+            if not os.path.isdir(d):
+                continue
+            for x, y in (("a", "c"), ("b", "d")):
+                patch = f"{d}/{x}.rebased.diff" if os.path.exists(f"{d}/{x}.rebased.diff") else f"{d}/{x}.diff"
+                if os.path.exists(patch) and os.path.exists(f"{d}/demo_{x}.py"):
+                    todo.append((pid + y, pid, patch, f"{d}/demo_{x}.py", f"{d}/NOTES.md"))
     else:
         for sid in sorted(os.listdir(f"{VERIF}/seeded")):
             d = f"{VERIF}/seeded/{sid}"
@@ -85,7 +94,7 @@ def main():
         needs = ""
         if os.path.exists(f"{dst}/NOTES.md"):
             txt = open(f"{dst}/NOTES.md").read()
-            letter = "A" if sid.endswith("a") else "B"
+            letter = "A" if sid[-1] in "ac" else "B"
             m = re.search(rf"(?ms)^## Change {letter}\b(.*?)(?=^## |\Z)", txt)
             section = (m.group(0) if m else txt).strip()
             paras = [p.strip() for p in re.split(r"\n\s*\n", section)]
